@@ -3,9 +3,13 @@
 import json, glob, os, re
 V = os.path.dirname(os.path.dirname(os.path.abspath(__file__)))
 rows = []
+obsolete = []
 for d in sorted(glob.glob(os.path.join(V, "seeded", "*"))):
     m = json.load(open(os.path.join(d, "meta.json")))
     name = os.path.basename(d)
+    if m.get("valid") is False:
+        obsolete.append((name, m.get("summary", "").replace("|", "/")[:150], m.get("invalid_reason", "")[:90]))
+        continue
     res = m.get("check_result", [])
     by = []
     for l in res:
@@ -18,10 +22,13 @@ for d in sorted(glob.glob(os.path.join(V, "seeded", "*"))):
     rows.append((name, m.get("summary", "").replace("|", "/")[:150], m.get("needs", "").replace("|", "/")[:140],
                  ("caught" if m.get("detected") else "**missed**") + (" (" + ", ".join(by) + ")" if by else "") + (": " + how if how else "")))
 n = len(rows); c = sum(1 for r in rows if r[3].startswith("caught"))
-out = [f"{c} of {n} seeded changes are caught by the quick tier of the listed check(s).", "",
+out = [f"{c} of {n} seeded changes that are valid against /repo HEAD are caught by the quick tier of the check of the property they break "
+       f"({len(obsolete)} more are obsolete: a later `fix:` commit changed the code they patch or made their demonstration pass).", "",
        "| seeded change | what was changed | needs | verdict |", "|---|---|---|---|"]
 for r in rows:
     out.append("| " + " | ".join(r) + " |")
+if obsolete:
+    out += ["", "Obsolete at /repo HEAD:", "", "| seeded change | what was changed | why obsolete |", "|---|---|---|"] + ["| " + " | ".join(o) + " |" for o in obsolete]
 txt = "\n".join(out)
 p = os.path.join(V, "DESIGN.md")
 s = open(p).read()
